@@ -13,6 +13,16 @@ RANGES = {
     "uint32": (0, 2**32 - 1), "uint64": (0, 2**64 - 1),
 }
 
+H = "[0-9a-f]"
+IPV4 = r"([0-9]{1,3}\.){3}[0-9]{1,3}"
+STRING_FORMATS = {
+    "uuid": "^%s{8}-%s{4}-%s{4}-%s{4}-%s{12}$" % (H, H, H, H, H),
+    "date": r"^[0-9]{4}-[0-9]{2}-[0-9]{2}$",
+    "date-time": r"^[0-9]{4}-[0-9]{2}-[0-9]{2}T[0-9]{2}:[0-9]{2}:[0-9]{2}Z$",
+    "ipv4": "^%s$" % IPV4,
+    "ip": "^(%s|[0-9a-f:]*:[0-9a-f:]*)$" % IPV4,
+}
+
 def widen(s):
     if isinstance(s, dict):
         out = {k: widen(v) for k, v in s.items() if k not in ("enum", "const", "default", "required")}
@@ -20,6 +30,9 @@ def widen(s):
             if k in s:
                 out[k] = s[k]
         fmt = s.get("format")
+        if fmt in STRING_FORMATS and s.get("type") == "string":
+            # string formats typify maps to library types are read as assertions
+            out["pattern"] = STRING_FORMATS[fmt]
         if fmt in RANGES and ("type" in s):
             lo, hi = RANGES[fmt]
             out["minimum"] = max(lo, s.get("minimum", lo))
